@@ -335,3 +335,16 @@ Print Assumptions derive_TE_ssz_bytes_len.
 Print Assumptions derive_Outer_ssz_append.
 Print Assumptions derive_Outer_ssz_bytes_len.
 Print Assumptions derive_Outer_from_ssz_bytes.
+
+(** decoding a transparent enum: the first variant whose decoder accepts (a panic of a variant's decoder is a panic) *)
+Theorem derive_TE_from_ssz_bytes bs : omap v_TE (GenD.TE_from_ssz_bytes bs) = dec T_TE bs.
+Proof.
+  unfold GenD.TE_from_ssz_bytes, T_TE. rewrite dec_trans. cbn [map first_ok]. leaf_meta. cbn [bind].
+  change (8 / 8) with 1. change (16 / 8) with 2.
+  change (Gen.vec_from_ssz_bytes true 1 Gen.u8_from_ssz_bytes bs) with (d_vec_u8 bs).
+  change (Gen.vec_from_ssz_bytes true 2 Gen.u16_from_ssz_bytes bs) with (d_vec_u16 bs).
+  rewrite <- (d_vec_u8_eq bs), <- (d_vec_u16_eq bs).
+  destruct (d_vec_u8 bs) as [l| |]; cbn [omap]; try reflexivity.
+  destruct (d_vec_u16 bs) as [l| |]; reflexivity.
+Qed.
+Print Assumptions derive_TE_from_ssz_bytes.
